@@ -61,6 +61,12 @@ func (vc *VC) paramEnv(fn *ssa.Function, fc *FuncContract, args []Val, bind []Va
 			env.vars[names[i]] = TV{args[i], typs[i]}
 		}
 	}
+	if sig.Recv() != nil && len(args) > 0 {
+		// `receiver`: the method's receiver, for bodies that shadow the receiver's name with a local
+		if _, taken := env.vars["receiver"]; !taken {
+			env.vars["receiver"] = TV{args[0], typs[0]}
+		}
+	}
 	for i, fv := range fn.FreeVars {
 		if i < len(bind) {
 			et := fv.Type().(*types.Pointer).Elem()
